@@ -136,7 +136,7 @@ PROPERTIES = {
         "jobs": [J("C18_params", quick={"cases": 600, "shards": 8, "max_size": 60}, thorough={"cases": 30000, "shards": 16, "max_size": 100},
                    env={"VERIF_TMP": "/verif/build/run"}),
                  # end-to-end clause: dt / duration / sampling period written in XML, parsed by the real reader, must govern a real run
-                 J("C19_outputs", quick={"cases": 8, "shards": 4, "max_size": 40}, thorough={"cases": 200, "shards": 8, "max_size": 60},
+                 J("C19_outputs", quick={"cases": 12, "shards": 8, "max_size": 40}, thorough={"cases": 200, "shards": 8, "max_size": 60},
                    env={"VERIF_TMP": "/verif/build/run"}, prefix=True)],
     },
     "C06": {
@@ -265,7 +265,7 @@ PROPERTIES = {
                    env={"VERIF_TMP": "/verif/build/run"})],
     },
     "C15": {
-        "rule": "rapidcheck, three subs. 'threads': 2-7 non-interacting cells (growth rates incl. negative, l_min in {0.5, 0.3, 0.2} edge so "
+        "rule": "rapidcheck, three subs. 'threads': 2-7 non-interacting cells of two cell types (epithelial with a generated bending modulus 0 / 0.02 / 0.2, lumen without; either class first in the list), every run in a freshly forked process so that no process-lifetime state (function-local statics, caches) can couple two runs (growth rates incl. negative, l_min in {0.5, 0.3, 0.2} edge so "
                 "that remeshing happens), 3-14 iterations, run with 1 thread twice (repeatability) and with 2-3 thread counts from "
                 "{2,3,5,8,16} under a generated sleep plan (0-1500 us at the hook-H3 scheduling points): digests of positions, momenta, "
                 "connectivity, ids and statistics (wall-clock column removed) must be bit-identical. 'divide': cell_divider::run on 2-10 "
